@@ -255,6 +255,43 @@ def solve_cvc5(assertions, timeout_s, model_vars):
     return res, model, ''
 
 
+def linear_abstraction(assertions):
+    """Replace every product of two non-constant terms by a fresh variable (consistently: the DAG is
+    hash-consed).  The result is implied-by-nothing weaker: abstraction UNSAT => original UNSAT."""
+    memo = {}
+
+    def ab(n):
+        r = memo.get(n.id)
+        if r is not None:
+            return r
+        op = n.op
+        if op in ('var', 'bvar', 'const', 'true', 'false'):
+            r = n
+        elif op == '*':
+            a, b = n.args
+            if a.op == 'const' or b.op == 'const':
+                r = E.mul(ab(a), ab(b))
+            else:
+                r = E.var('nl!%d' % n.id)
+        elif op == '+':
+            r = E.add(ab(n.args[0]), ab(n.args[1]))
+        elif op == 'neg':
+            r = E.neg(ab(n.args[0]))
+        elif op in ('<', '<=', '==', '!='):
+            r = E.cmp(op, ab(n.args[0]), ab(n.args[1]))
+        elif op == 'and':
+            r = E.and_(*[ab(a) for a in n.args])
+        elif op == 'or':
+            r = E.or_(*[ab(a) for a in n.args])
+        elif op == 'not':
+            r = E.not_(ab(n.args[0]))
+        else:
+            raise ValueError(op)
+        memo[n.id] = r
+        return r
+    return [ab(a) for a in assertions]
+
+
 class Result:
     __slots__ = ('status', 'model', 'time', 'backend', 'reason', 'nassert', 'smt2')
 
@@ -272,6 +309,17 @@ def check_sat(assertions, timeout_s=20.0, model_vars=None, use_cvc5=True, tactic
         return Result('unsat', None, 0.0, 'syntactic', nassert=len(assertions))
     reason = ''
     budget = timeout_s
+    # stage 0: linear abstraction (products of non-constants as opaque variables): UNSAT is conclusive
+    if any(_nonlinear(a) for a in assertions):
+        try:
+            lin = linear_abstraction(assertions)
+            if any(a is E.FALSE for a in lin):
+                return Result('unsat', None, time.time() - t0, 'syntactic-linabs', nassert=len(assertions))
+            ok, val = run_forked(_child_solve, (lin, min(5.0, timeout_s), {}, None), min(5.0, timeout_s) + 2)
+            if ok and val[0] == 'unsat':
+                return Result('unsat', None, time.time() - t0, 'z3-linear-abstraction', nassert=len(assertions))
+        except RecursionError:
+            pass
     for tac in tactics:
         ok, val = run_forked(_child_solve, (assertions, budget, model_vars, tac), budget + 3)
         if ok:
@@ -329,6 +377,9 @@ def feasible(assertions, timeout_s=3.0):
         return False
     if not any(_nonlinear(a) for a in assertions):
         return quick_feasible(assertions, int(timeout_s * 1000))
+    lin = linear_abstraction(assertions)
+    if any(a is E.FALSE for a in lin) or not quick_feasible(lin, int(timeout_s * 1000)):
+        return False
     ok, val = run_forked(_child_feasible, (assertions, int(timeout_s * 1000)), timeout_s + 1.0)
     if not ok:
         return True
